@@ -724,8 +724,9 @@ Qed.
 
 (** every option candidate offered where a new argument may start is, for the parser model at the
     same level, the start of an occurrence of the argument whose id it carries *)
-Theorem option_candidate_step tbl w cur pi l cd aid pc :
-  assert_app pc = true -> short_aliases_on_options pc -> same_level pc cur ->
+(** (the level enters through its ARGUMENTS only) *)
+Theorem option_candidate_step_args tbl w cur pi l cd aid pc :
+  assert_app pc = true -> short_aliases_on_options pc -> c_args pc = c_args cur ->
   complete_arg tbl w cur pi ValueDone = COk l -> In cd l -> cd_id cd = Some (IdArg aid) ->
   typed_known cur w ->
   exists a, In a (c_args pc) /\ a_id a = aid /\
@@ -735,7 +736,7 @@ Theorem option_candidate_step tbl w cur pi l cd aid pc :
          forall rest, parse_loop pc (cd_value cd :: rest) (mkL PSValuesDone pos vaf false) st
                       = after_opt pc rest pos h).
 Proof.
-  intros V Hal [Hargs Hsubs] Hc Hin Hid Htk.
+  intros V Hal Hargs Hc Hin Hid Htk.
   cbn [complete_arg] in Hc.
   destruct (value_done_inv _ _ _ _ _ Hc) as [posv [opts [Hpos [Ho ->]]]].
   apply finish_incl in Hin. apply in_app_or in Hin. destruct Hin as [Hin|Hin].
@@ -788,6 +789,18 @@ Proof.
     split; [apply short_loop_cluster_ok; [exact Hck|apply Nat.lt_succ_diag_r]|].
     intros rest. apply (accept_cluster_step pc a); assumption.
 Qed.
+
+Theorem option_candidate_step tbl w cur pi l cd aid pc :
+  assert_app pc = true -> short_aliases_on_options pc -> same_level pc cur ->
+  complete_arg tbl w cur pi ValueDone = COk l -> In cd l -> cd_id cd = Some (IdArg aid) ->
+  typed_known cur w ->
+  exists a, In a (c_args pc) /\ a_id a = aid /\
+    (a_is_positional a = false -> names_wf a ->
+     forall pos vaf st, quiet_state pc (cd_value cd) pos vaf st ->
+       exists h, occ_head pc a h /\
+         forall rest, parse_loop pc (cd_value cd :: rest) (mkL PSValuesDone pos vaf false) st
+                      = after_opt pc rest pos h).
+Proof. intros V Hal [Hargs _]. exact (option_candidate_step_args tbl w cur pi l cd aid pc V Hal Hargs). Qed.
 
 (** "accepted": an UnknownArgument / InvalidSubcommand error of the level is never caused by the candidate;
     if one is reported at all it is the error of the tokens that follow it (none, when the candidate is
